@@ -79,6 +79,10 @@ fn run11<T: Est>(c: &H11, o: &mut Obs) -> TestResult {
             }
             Op11::Merge { i, j } => {
                 let (i, j) = (i % POOL, j % POOL);
+                if n[i] + n[j] > 1 << 50 {
+                    // repeated self-merges double the count; u64 overflow of len() is outside the property
+                    continue;
+                }
                 let b = pool[j].clone();
                 let before = b.snap();
                 pool[i].merge_(&b);
@@ -87,7 +91,7 @@ fn run11<T: Est>(c: &H11, o: &mut Obs) -> TestResult {
                     return fail("identity:argument-modified", format!("{}: merge modified its argument: {}", T::NAME, d));
                 }
                 n[i] += n[j];
-                merges[i] += 1 + merges[j];
+                merges[i] = merges[i].saturating_add(1).saturating_add(merges[j]);
             }
             Op11::Clone { i, j } => {
                 let (i, j) = (i % POOL, j % POOL);
